@@ -1,4 +1,4 @@
-(* C11, sparse matrices — the hypotheses of PropsMat.v are satisfiable by
+(* C11, sparse matrices — the premises of PropsMat.v are satisfiable by
    non-trivial instances; vm_compute sanity checks of the model against the
    intended dense semantics, including the statements PropsMat.v leaves
    _partial (Reset, SetIdentity on non-square, T, Set, Clone, Map, Tip). *)
